@@ -17,16 +17,16 @@ class OutsideSubset(Exception):
 
 
 class Module:
-    def __init__(self, relpath):
+    def __init__(self, relpath, abspath=None, dotted=None):
         self.relpath = relpath
-        self.path = os.path.join(REPO, relpath)
+        self.path = abspath or os.path.join(REPO, relpath)
         with open(self.path, "r", encoding="utf-8") as fh:
             self.text = fh.read()
         self.tree = ast.parse(self.text, filename=self.path)
         self.defs = {}      # name -> FunctionDef / ClassDef
         self.assigns = {}   # name -> value expr (last top-level simple assignment)
         self.imports = {}   # local name -> ("module", dotted) | ("from", dotted, name)
-        self.dotted = relpath[:-3].replace("/", ".")
+        self.dotted = dotted or relpath[:-3].replace("/", ".")
         if self.dotted.endswith(".__init__"):
             self.dotted = self.dotted[: -len(".__init__")]
         self._scan(self.tree.body)
@@ -79,6 +79,14 @@ def load_module(relpath):
     if relpath not in _MODULES:
         _MODULES[relpath] = Module(relpath)
     return _MODULES[relpath]
+
+
+def load_abs(abspath, dotted):
+    """a module outside the repository (interpreter stdlib source), keyed by '<stdlib>/name'"""
+    key = "<stdlib>/" + dotted
+    if key not in _MODULES:
+        _MODULES[key] = Module(key, abspath=abspath, dotted=dotted)
+    return _MODULES[key]
 
 
 def reset_cache():
